@@ -296,7 +296,7 @@ def run(case_):
     return {'nontrivial': nt, 'labels': labels}
 
 
-FAMILIES = [Family('embedded-names', case, run, quick=320, thorough=10000)]
+FAMILIES = [Family('embedded-names', case, run, quick=640, thorough=10000)]
 
 MANIFEST_INFO = {
     'level_text': 'Generated-program exploration over construction histories (when names are requested, where they are '
